@@ -38,7 +38,12 @@ fn gen_small_header(g: &mut Gen) -> Header {
     }
     if g.bool() {
         // any registered algorithm (the whole IANA table), a private-use number or a text name
-        h.alg = Some(match g.weighted(&[6, 1, 1]) {
+        h.alg = Some(match g.weighted(&[4, 1, 1, 3]) {
+            3 => Algorithm::Assigned(*g.pick(&[
+                iana::Algorithm::ES256, iana::Algorithm::ES384, iana::Algorithm::ES512, iana::Algorithm::ES256K, iana::Algorithm::EdDSA,
+                iana::Algorithm::HMAC_256_64, iana::Algorithm::HMAC_256_256, iana::Algorithm::AES_MAC_128_64, iana::Algorithm::A128GCM,
+                iana::Algorithm::A128KW, iana::Algorithm::Direct, iana::Algorithm::PS256,
+            ])),
             0 => {
                 let t = crate::registry::ALGORITHM;
                 let n = t[g.below(t.len())].1;
@@ -84,7 +89,7 @@ fn pbytes(p: &ProtectedHeader) -> Vec<u8> {
 }
 
 fn gen_sig(g: &mut Gen) -> CoseSignature {
-    CoseSignature { protected: built(&gen_small_header(g)), unprotected: gen_small_header(g), signature: g.small_bytes() }
+    CoseSignature { protected: built(&gen_small_header(g)), unprotected: gen_small_header(g), signature: gen_out(g) }
 }
 
 fn gen_rcp(g: &mut Gen) -> CoseRecipient {
@@ -111,6 +116,47 @@ fn gen_data(g: &mut Gen) -> Vec<u8> {
     }
 }
 
+/// What a signer / MAC / cipher closure returns: mostly arbitrary short bytes; sometimes bytes
+/// shaped like real outputs — a DER ECDSA-Sig-Value, fixed-size r||s, tags and MACs of the
+/// registered sizes (and one octet more or less).
+fn gen_out(g: &mut Gen) -> Vec<u8> {
+    if !g.ratio(1, 8) {
+        return g.small_bytes();
+    }
+    match g.below(3) {
+        0 => {
+            let int = |g: &mut Gen| -> Vec<u8> {
+                let n = *g.pick(&[1usize, 20, 31, 32, 33, 48, 66]);
+                let mut v = g.bytes(n);
+                v[0] |= 1;
+                if v[0] & 0x80 != 0 {
+                    v.insert(0, 0);
+                }
+                let mut out = vec![0x02, v.len() as u8];
+                out.extend_from_slice(&v);
+                out
+            };
+            let mut body = int(g);
+            body.extend_from_slice(&int(g));
+            let mut out = vec![0x30];
+            if body.len() >= 128 {
+                out.push(0x81);
+            }
+            out.push(body.len() as u8);
+            out.extend_from_slice(&body);
+            out
+        }
+        1 => {
+            let n = *g.pick(&[64usize, 96, 132, 63, 65]);
+            g.bytes(n)
+        }
+        _ => {
+            let n = *g.pick(&[8usize, 16, 32, 48, 64, 9, 17, 33]);
+            g.bytes(n)
+        }
+    }
+}
+
 fn gen_op(g: &mut Gen, c: Carrier) -> Op {
     let fail = |g: &mut Gen| if g.ratio(1, 12) { Some(g.byte()) } else { None };
     let k = g.weighted(&[3, 2, 3, 2, 2, 5, 3]);
@@ -119,7 +165,7 @@ fn gen_op(g: &mut Gen, c: Carrier) -> Op {
         1 => Op::Unprotected(gen_small_header(g)),
         2 => Op::Content(gen_data(g)),
         3 => match c {
-            Carrier::Sign1 | Carrier::Mac | Carrier::Mac0 => Op::Auth(g.small_bytes()),
+            Carrier::Sign1 | Carrier::Mac | Carrier::Mac0 => Op::Auth(gen_out(g)),
             _ => Op::Unprotected(gen_small_header(g)),
         },
         4 => match c {
@@ -130,21 +176,21 @@ fn gen_op(g: &mut Gen, c: Carrier) -> Op {
         5 => match c {
             Carrier::Sign => {
                 let fallible = g.bool();
-                Op::AddCreated { sig: gen_sig(g), aad: gen_data(g), out: g.small_bytes(), fallible, fail: if fallible { fail(g) } else { None } }
+                Op::AddCreated { sig: gen_sig(g), aad: gen_data(g), out: gen_out(g), fallible, fail: if fallible { fail(g) } else { None } }
             }
             _ => {
                 let fallible = g.bool();
-                Op::Create { aad: gen_data(g), plaintext: g.small_bytes(), out: g.small_bytes(), fallible, fail: if fallible { fail(g) } else { None }, ctx: if g.ratio(1, 10) { g.below(2) } else { 2 + g.below(3) } }
+                Op::Create { aad: gen_data(g), plaintext: g.small_bytes(), out: gen_out(g), fallible, fail: if fallible { fail(g) } else { None }, ctx: if g.ratio(1, 10) { g.below(2) } else { 2 + g.below(3) } }
             }
         },
         _ => match c {
             Carrier::Sign1 => {
                 let fallible = g.bool();
-                Op::CreateDetached { payload: gen_data(g), aad: gen_data(g), out: g.small_bytes(), fallible, fail: if fallible { fail(g) } else { None } }
+                Op::CreateDetached { payload: gen_data(g), aad: gen_data(g), out: gen_out(g), fallible, fail: if fallible { fail(g) } else { None } }
             }
             Carrier::Sign => {
                 let fallible = g.bool();
-                Op::AddDetached { sig: gen_sig(g), payload: gen_data(g), aad: gen_data(g), out: g.small_bytes(), fallible, fail: if fallible { fail(g) } else { None } }
+                Op::AddDetached { sig: gen_sig(g), payload: gen_data(g), aad: gen_data(g), out: gen_out(g), fallible, fail: if fallible { fail(g) } else { None } }
             }
             _ => Op::Content(g.small_bytes()),
         },
